@@ -77,6 +77,7 @@ func VerifC16Merge() {
 	if n <= len(want) {
 		verifAssert(bytes.Equal(got, want[:n]), "C16.merge: output is not a prefix of nul header followed by the piece contents in order")
 	}
+	verifReach("prefix-checked")
 	// known finding: the bufio.Writer around the output file is never flushed
 	verifKnownFinding("C16-merge-no-flush", true)
 	verifAssert(n == len(want), "C16.merge: output is truncated (tail of the merged CAR missing)")
